@@ -418,14 +418,14 @@ O("C16.refill", ["C16", "C01", "C05", "C09"], "h_C16.c", "h_C16_refill",
 # apply the default argument promotions to bit-field arguments (t->max_simul is unsigned:6), so va_arg(ap, int) in the
 # recorder reads out of bounds - a tool limit, the failure is spurious.
 O("C09.dly", ["C09", "C16", "C01"], "h_C09.c", "h_C09_dly",
-  "rrul_fill_dly (Gregorian scale): memory safe incl. the time-of-day enumeration (never beyond the 128-slot cache), returns <= nti and <= COUNT, every loop terminates, occurrences within [DTSTART, UNTIL] - for every valid DTSTART, every well-formed container state, INTERVAL 1..64",
+  "rrul_fill_dly (Gregorian scale): memory safe incl. the time-of-day enumeration (never beyond the 128-slot cache), returns <= nti and <= COUNT, every loop terminates, occurrences within [DTSTART, UNTIL], and one step advances the day cursor by exactly INTERVAL days (the month/year carry keeps the denoted day) - for every valid DTSTART, every well-formed container state, INTERVAL 1..1000",
   ["rrul_fill_dly"], dfcc=True, loop_contracts=True, with_unwind=True,
   replace=["bi447_next", "bui31_next", "bi31_next", "echs_scale_ndim", "echs_scale_wday", "echs_instant_rescale", "make_enum", "rrul_fill_wly"],
   replace_status={"bi447_next": "discharged by C19.bi447_next", "bui31_next": "discharged by C19.bui31_next", "bi31_next": "discharged by C19.bi31_next",
                   "echs_scale_ndim": "discharged for the Gregorian scale by C15.dispatch/C15.greg", "echs_scale_wday": "discharged by C15.dispatch/C15.greg",
                   "echs_instant_rescale": "identity on the Gregorian scale (C15.rescale.*)", "make_enum": "discharged by C09.make_enum (1..24/60/61 entries) for rules the parser lets through (C09.snarf_rrule.*)", "rrul_fill_wly": "trusted: returns <= nti (not discharged)"},
-  solver=["minisat"], mem_gb=28, timeout={"quick": 1500, "thorough": 7200}, replay=False, replay_note="callees replaced by contracts",
-  defines=["-DRR_INTER_MAX=64U"])
+  solver=["minisat", "kissat", "cadical"], mem_gb=28, timeout={"quick": 1500, "thorough": 7200}, replay=False, replay_note="callees replaced by contracts",
+  defines=["-DRR_INTER_MAX=1000U"])
 # C17.shift.days (harness h_C17_shift_days exists): out of memory / no answer at |N| <= 62 (both halves of shift() and the
 # +-383 container's insert path are in one formula) - not registered
 for var, defs in (("replace", ["-DHOME_SAME"]), ("new", [])):
@@ -604,19 +604,28 @@ O("C09.wly", ["C09", "C16", "C01"], "h_C09.c", "h_C09_wly",
                   "echs_instant_rescale": "identity on the Gregorian scale (C15.rescale.*)", "make_enum": "discharged by C09.make_enum (1..24/60/61 entries) for rules the parser lets through (C09.snarf_rrule.*)"},
   solver=["minisat"], mem_gb=28, timeout={"quick": 1500, "thorough": 7200}, replay=False, replay_note="callees replaced by contracts",
   defines=["-DRR_INTER_MAX=64U"])
+O("C09.wly.i100", ["C09", "C16", "C01"], "h_C09.c", "h_C09_wly",
+  "rrul_fill_wly (Gregorian scale): memory safe incl. the weekday-increment table and the time-of-day enumeration, returns <= nti and <= COUNT, every loop terminates, occurrences within [DTSTART, UNTIL] - for every valid DTSTART, every well-formed container state, INTERVAL 1..64",
+  ["rrul_fill_wly"], dfcc=True, loop_contracts=True, with_unwind=True,
+  replace=["bi447_next", "bui31_next", "echs_scale_ndim", "echs_scale_wday", "echs_instant_rescale", "make_enum"],
+  replace_status={"bi447_next": "discharged by C19.bi447_next", "bui31_next": "discharged by C19.bui31_next",
+                  "echs_scale_ndim": "discharged for the Gregorian scale by C15.dispatch/C15.greg", "echs_scale_wday": "discharged by C15.dispatch/C15.greg",
+                  "echs_instant_rescale": "identity on the Gregorian scale (C15.rescale.*)", "make_enum": "discharged by C09.make_enum (1..24/60/61 entries) for rules the parser lets through (C09.snarf_rrule.*)"},
+  solver=["minisat", "kissat", "cadical"], mem_gb=28, timeout={"quick": 1500, "thorough": 7200}, replay=False, replay_note="callees replaced by contracts",
+  defines=["-DRR_INTER_MAX=100U"], tiers=["thorough"])
 O("C09.Hly", ["C09", "C16", "C01"], "h_C09.c", "h_C09_Hly",
-  "rrul_fill_Hly: memory safe incl. the minute/second enumeration and the BYYEARDAY walk, returns <= nti and <= COUNT, every loop terminates (weekday stays in Mon..Sun, the cursor strictly advances), occurrences within [DTSTART, UNTIL] - for every valid DTSTART, every well-formed container state, INTERVAL 1..64",
+  "rrul_fill_Hly: memory safe incl. the minute/second enumeration and the BYYEARDAY walk, returns <= nti and <= COUNT, every loop terminates (weekday stays in Mon..Sun, the cursor strictly advances), occurrences within [DTSTART, UNTIL] - for every valid DTSTART, every well-formed container state, INTERVAL 1..1000 (steps of up to 41 days)",
   ["rrul_fill_Hly"], dfcc=True, loop_contracts=True, with_unwind=True,
   replace=["bi447_next", "bi383_next", "bui31_next", "bi31_next", "ymd_get_wday", "__get_ndom", "make_enum"],
   replace_status={"bi447_next": "discharged by C19.bi447_next", "bi383_next": "discharged by C19.bi383_next", "bui31_next": "discharged by C19.bui31_next", "bi31_next": "discharged by C19.bi31_next",
                   "ymd_get_wday": "discharged by C01.k.wday", "__get_ndom": "discharged by C01.k.wday", "make_enum": "discharged by C09.make_enum (1..24/60/61 entries) for rules the parser lets through (C09.snarf_rrule.*)"},
   solver=["minisat"], mem_gb=28, timeout={"quick": 1500, "thorough": 7200}, replay=False, replay_note="callees replaced by contracts",
-  defines=["-DRR_INTER_MAX=64U"])
+  defines=["-DRR_INTER_MAX=1000U"])
 O("C09.Mly", ["C09", "C16", "C01"], "h_C09.c", "h_C09_Mly",
-  "rrul_fill_Mly: memory safe incl. the second enumeration, returns <= nti and <= COUNT, every loop terminates, occurrences within [DTSTART, UNTIL] - for every valid DTSTART, every well-formed container state, INTERVAL 1..64",
+  "rrul_fill_Mly: memory safe incl. the second enumeration, returns <= nti and <= COUNT, every loop terminates, occurrences within [DTSTART, UNTIL] - for every valid DTSTART, every well-formed container state, INTERVAL 1..1000",
   ["rrul_fill_Mly"], dfcc=True, loop_contracts=True, with_unwind=True,
   replace=["bi447_next", "bui31_next", "bi31_next", "bui63_next", "ymd_get_wday", "__get_ndom", "make_enum"],
   replace_status={"bi447_next": "discharged by C19.bi447_next", "bui31_next": "discharged by C19.bui31_next", "bi31_next": "discharged by C19.bi31_next", "bui63_next": "discharged by C19.bui63_next",
                   "ymd_get_wday": "discharged by C01.k.wday", "__get_ndom": "discharged by C01.k.wday", "make_enum": "discharged by C09.make_enum (1..24/60/61 entries) for rules the parser lets through (C09.snarf_rrule.*)"},
-  solver=["minisat"], mem_gb=28, timeout={"quick": 1500, "thorough": 7200}, replay=False, replay_note="callees replaced by contracts",
-  defines=["-DRR_INTER_MAX=64U"])
+  solver=["minisat", "kissat", "cadical"], mem_gb=28, timeout={"quick": 1500, "thorough": 7200}, replay=False, replay_note="callees replaced by contracts",
+  defines=["-DRR_INTER_MAX=1000U"])
